@@ -769,6 +769,14 @@ impl<'a> Walker<'a> {
             }
         }
         self.pop_frame(t);
+        {
+            // remember where every simple local was declared: a guard stored into it later lives until that block ends
+            let mut ids = vec![];
+            pat_idents(pat, &mut ids);
+            for i in ids {
+                self.decl_frames.insert(i, block_frame);
+            }
+        }
         let ty = match declared {
             Some(Ty::Unknown) | None => init_ty,
             Some(d) => d,
@@ -1145,6 +1153,34 @@ impl<'a> Walker<'a> {
                     }
                     return;
                 }
+                // `v.insert(x.write().await)`, `v.replace(..)`, `v.push(..)` …: the guard is moved into the local `v`
+                // and lives until `v` goes out of scope (or `drop(v)`)
+                let stores = matches!(name.as_str(), "insert" | "replace" | "get_or_insert" | "push" | "push_back" | "push_front" | "set" | "extend");
+                if let (true, Some(v)) = (stores, simple_ident(&m.receiver)) {
+                    if self.g.by_name.get(&name).is_none() || self.lookup_var(&v).is_some() {
+                        let saved = (self.let_frame, std::mem::take(&mut self.value_guards));
+                        self.let_frame = self.decl_frames.get(&v).copied().unwrap_or_else(|| self.cur_block_frame());
+                        if !self.frames.iter().any(|(i, _)| *i == self.let_frame) {
+                            self.let_frame = self.cur_block_frame();
+                        }
+                        for a in &m.args {
+                            self.expr(a, VPON);
+                        }
+                        let vg = std::mem::take(&mut self.value_guards);
+                        for g in self.held.iter_mut() {
+                            if vg.contains(&g.id) {
+                                g.name = Some(v.clone());
+                            }
+                        }
+                        self.let_frame = saved.0;
+                        self.value_guards = saved.1;
+                        let (targets, how) = self.resolve_method(&m.receiver, &name, m.args.len());
+                        let line = m.method.span().start().line;
+                        let desc = format!("{}.{}()", expr_text(&m.receiver), name);
+                        self.record_call(targets, how, line, desc);
+                        return;
+                    }
+                }
                 for a in &m.args {
                     self.expr(a, NOVP);
                 }
@@ -1169,8 +1205,12 @@ impl<'a> Walker<'a> {
                         }
                         return;
                     }
+                    // a guard wrapped by a constructor (`Some(x.write().await)`, `Ok(..)`, `Box::new(..)`, a tuple
+                    // struct) is moved into the value: it lives as long as the value does
+                    let wrapper = matches!(last.as_str(), "Some" | "Ok" | "Err" | "new")
+                        || (last.chars().next().map(|ch| ch.is_uppercase()).unwrap_or(false) && !self.g.by_name.contains_key(&last));
                     for a in &c.args {
-                        self.expr(a, NOVP);
+                        self.expr(a, if wrapper { vp } else { NOVP });
                     }
                     let (targets, how) = self.resolve_path_call(&ids, c.args.len());
                     let line = p.path.segments.last().map(|s| s.ident.span().start().line).unwrap_or(0);
